@@ -84,6 +84,16 @@ CHECKS = {
         "covers": ["C16/register-succeeds", "C16/register-fails", "C16/renewal-of-live-name"],
         "assumptions": A_COMMON + A_STORE + A_BANK,
     },
+    "C10": {
+        "groups": [{"pkgs": "./x/filetree/keeper", "fns": ["VH_C10_*"], "opts": {"j": 5, "w": 3}}],
+        "covers": ["C10/delete-changes-target", "C10/changeowner-changes-target", "C10/addviewers-changes-target", "C10/removeviewers-changes-target",
+                   "C10/resetviewers-changes-target", "C10/addeditors-changes-target", "C10/removeeditors-changes-target", "C10/reseteditors-changes-target",
+                   "C10/post-succeeds", "C10/post-changes-target", "C10/provision-changes-target"],
+        "bounds": {"ids per message": 2},
+        "conformance": False,
+        "assumptions": A_COMMON + A_STORE + ["A-HASH", "A-JSON: json.Unmarshal(json.Marshal(m)) = m; an arbitrary text decodes into an arbitrary map that is a function of the text (or fails)",
+                                             "WF: a stored entry sits at FilesKey(its Address, its Owner)"],
+    },
     "C11": {
         "pregen": ["python3", "tools/gen_c11.py"],
         "covers_file": ".cache/c11_covers.json",
